@@ -102,8 +102,15 @@ def judge(case):
     sb.clean_work()
     sb.reset_log()
     pop = case["pop"]
+    sub = case.get("subdir")
+    base = os.path.join(sb.work, sub) if sub else sb.work
+    if sub:
+        try:
+            os.makedirs(base)
+        except OSError:
+            return ("inconclusive", "cannot create entry", {})
     for nm, isd in pop:
-        p = os.path.join(sb.work, nm)
+        p = os.path.join(base, nm)
         try:
             if isd:
                 os.makedirs(p)
@@ -120,6 +127,10 @@ def judge(case):
     extra = case.get("extra", 0)
     if extra:
         prefix = name[:min(len(name), len(prefix) + extra)]
+    if sub:
+        # the entry lives in a sub-directory whose own name needs protecting: the word typed is dir/prefix
+        prefix = sub + "/" + prefix
+        res["subdir"] = sub
     typed = type_prefix(prefix, ctx)
     if typed is None:
         return ("held", None, dict(res, skipped="prefix cannot be typed in this context"))
@@ -149,8 +160,8 @@ def judge(case):
         res["echo"] = ptydrv_clean(s.all[-300:])
         if not s.alive():
             return ("violated", "C20:pty:shell-died:%s" % ctx, res)
-        want = [name + ("/" if isd else "")]
-        fam = family(name, ctx, prefix)
+        want = [(sub + "/" if sub else "") + name + ("/" if isd else "")]
+        fam = family((sub + "/" if sub else "") + name, ctx, prefix)
         if rec is None:
             # nothing ran: continuation prompt, background, syntax error ...
             sym = "program-did-not-run"
@@ -163,6 +174,9 @@ def judge(case):
         if fam:
             return ("violated", "C20:%s" % fam, res)
         chars = "".join(sorted({("SP" if c == " " else c) for c in name if not c.isalnum()}))
+        if sub:
+            dchars = "".join(sorted({("SP" if c == " " else c) for c in sub if not c.isalnum()}))
+            return ("violated", "C20:pty:%s:in-subdir-chars=%s:chars=%s:%s%s" % (ctx, dchars, chars, sym, ":dir" if isd else ""), res)
         return ("violated", "C20:pty:%s:chars=%s:%s%s" % (ctx, chars, sym, ":dir" if isd else ""), res)
     finally:
         s.close()
@@ -192,7 +206,8 @@ def run(tier, seed):
     rep.rule = ("pty: directories of 1..12 generated entries (names of 1..6 symbols over the special alphabet incl. blank, both "
                 "quotes, $ * { } ~ # | & ; < > ( ) \\ ! ? [ ] ` , ^ = %%, non-ASCII; a quarter are directories), one entry "
                 "completed per session from its shortest unique prefix (<=3 chars) in unquoted / open-double-quote / "
-                "open-single-quote context; in-process: every name of length<=%d over a 30-symbol alphabet x 3 contexts "
+                "open-single-quote context, 40%% of the sessions with the entries inside a sub-directory whose own name is drawn "
+                "from the same alphabet (the word typed is dir/prefix); in-process: every name of length<=%d over a 30-symbol alphabet x 3 contexts "
                 "(file and directory), plus candidate sets for 5 populations x all prefixes x {path, cd}.  Non-trivial = name "
                 "contains a non-alphanumeric character; distinct by case." % (3 if thorough else 2))
     rep.assumptions = ["a prefix is typed the way cicada's own tokenizer reads it back (escaped, else raw); prefixes that "
@@ -227,6 +242,14 @@ def run(tier, seed):
         name, isd = rng.choice(pop)
         cases.append({"pop": pop, "name": name, "is_dir": isd, "ctx": rng.choice(["unq", "dq", "sq"]),
                       "extra": rng.choice([0, 0, 1, 2, 3, 5])})
+    for _ in range(1500 if thorough else 160):
+        pop = gen_population(rng)
+        name, isd = rng.choice(pop)
+        sub = None
+        while sub is None or sub in (".", "..") or sub.startswith("-"):
+            sub = "".join(rng.choice(ALPHA) for _ in range(rng.choice([1, 2, 3, 4])))
+        cases.append({"pop": pop, "name": name, "is_dir": isd, "ctx": rng.choice(["unq", "unq", "dq", "sq"]),
+                      "extra": rng.choice([0, 0, 1, 2]), "subdir": sub})
     results = common.pmap(_work, cases, init=_init, initargs=(cicada,), chunksize=1)
     skipped = 0
     for case, (verdict, sig, res) in zip(cases, results):
